@@ -87,7 +87,7 @@ structure Core where
   count : Nat
   proposals : AMap Nat Proposal
   ballots : AMap Nat (AMap Addr Ballot)
-  deriving Repr, Inhabited
+  deriving Repr, DecidableEq, Inhabited
 
 def Core.empty : Core := ⟨0, [], []⟩
 
